@@ -1,19 +1,15 @@
-(* C15 -- Term comparison and sort/2 follow the standard order of terms.
-   Only statements, closed by `exact`.
-
-   Part 1 (spec): the standard order is a total order and sort_u is the unique
-   strictly ascending duplicate-free list -- about ModelStd only.
-   Part 2 (code): the model generated from problog/engine_builtin.py
-   (GenStructCmp.v, regenerated on every run) against that order.  The
-   theorems in THIS file are the ones that hold for the pinned source as well
-   as for the repaired one: they are stated on [dom_digits] (functor names
-   stored unquoted, every number an integer 0..9).  The full-strength
-   statements (domain [dom]: names unquoted, any float, integers |z| < 2^53)
-   are in PropsFixed.v; on the pinned source they are refuted by Findings.v
-   (struct_cmp falls through to text comparison on two unequal numbers).
-   [fr] is Python's repr of a float, left abstract. *)
+(* C15 -- Term comparison and sort/2 follow the standard order of terms:
+   FULL-STRENGTH statements.  This file holds for problog/engine_builtin.py with
+   fixes/C15-struct-cmp-number-fallthrough.patch applied (the generated model
+   GenStructCmp.v follows whatever source is present).  On the pinned source it
+   does not compile (ProofsFixed.v breaks); Findings.v refutes it there.
+   After the fix is applied this file replaces Props.v:
+       cp coq/theories/C15/PropsFixed.v coq/theories/C15/Props.v
+   Domain [dom]: functor names stored unquoted (the remaining defect, see
+   FindingsQuoted.v), integers |z| < 2^53 (comparison goes through float()),
+   any finite float, strings, variables (engine ints). *)
 From Coq Require Import ZArith NArith List Bool Sorted.
-From PL.C15 Require Import ModelStd ModelPrelude GenStructCmp ProofsStd ProofsSort ProofsGen.
+From PL.C15 Require Import ModelStd ModelPrelude GenStructCmp ProofsStd ProofsSort ProofsGen ProofsFixed.
 Import ListNotations.
 
 (* ---------------------------------------------------------------- spec *)
@@ -73,29 +69,28 @@ Qed.
 Print Assumptions C15_sort_unique.
 
 (* ---------------------------------------------------------------- code *)
-(* struct_cmp is the order on denoted terms *)
-Theorem C15_cmp_is_std_digits : forall fr a b,
-  dom_digits a = true -> dom_digits b = true ->
+Theorem C15_cmp_is_std : forall fr a b,
+  dom a = true -> dom b = true ->
   struct_cmp fr a b = cmpZ (plg_cmp (denote a) (denote b)).
-Proof. exact struct_cmp_digits_denote. Qed.
-Print Assumptions C15_cmp_is_std_digits.
+Proof. exact struct_cmp_dom_denote. Qed.
+Print Assumptions C15_cmp_is_std.
 
-(* ... and it is the SWI order when no strings are involved *)
-Theorem C15_cmp_is_swi_digits : forall fr a b,
-  dom_digits a = true -> dom_digits b = true -> no_strings a = true -> no_strings b = true ->
+(* the SWI-Prolog order when no strings are involved *)
+Theorem C15_cmp_is_swi : forall fr a b,
+  dom a = true -> dom b = true -> no_strings a = true -> no_strings b = true ->
   struct_cmp fr a b = cmpZ (std_cmp (denote a) (denote b)).
-Proof. exact struct_cmp_digits_swi. Qed.
-Print Assumptions C15_cmp_is_swi_digits.
+Proof. exact struct_cmp_dom_swi. Qed.
+Print Assumptions C15_cmp_is_swi.
 
 (* @<, @=<, @>, @>= *)
-Theorem C15_ops_digits : forall fr a b,
-  dom_digits a = true -> dom_digits b = true ->
+Theorem C15_ops : forall fr a b,
+  dom a = true -> dom b = true ->
   _builtin_struct_lt fr a b = is_Lt (plg_cmp a b) /\
   _builtin_struct_le fr a b = negb (is_Gt (plg_cmp a b)) /\
   _builtin_struct_gt fr a b = is_Gt (plg_cmp a b) /\
   _builtin_struct_ge fr a b = negb (is_Lt (plg_cmp a b)).
-Proof. exact ops_digits. Qed.
-Print Assumptions C15_ops_digits.
+Proof. exact ops_dom. Qed.
+Print Assumptions C15_ops.
 
 (* ==, \== (Term.__eq__ is hand-modelled as structural equality): every term *)
 Theorem C15_same : forall a b,
@@ -104,12 +99,12 @@ Proof. exact (fun a b => conj (same_spec a b) (notsame_spec a b)). Qed.
 Print Assumptions C15_same.
 
 (* compare/3: the order atom that is returned (order unbound) / accepted (order given) *)
-Theorem C15_compare3_digits : forall fr a b,
-  dom_digits a = true -> dom_digits b = true ->
+Theorem C15_compare3 : forall fr a b,
+  dom a = true -> dom b = true ->
   _builtin_compare_answer fr a b = TFun (order_token (plg_cmp a b)) [] /\
   forall tok, _builtin_compare_check fr (TFun tok []) a b = text_eqb (order_token (plg_cmp a b)) tok.
-Proof. exact compare3_digits. Qed.
-Print Assumptions C15_compare3_digits.
+Proof. exact compare3_dom. Qed.
+Print Assumptions C15_compare3.
 
 Theorem C15_compare3_modes : forall a b,
   (forall v, _builtin_compare_mode (TVar v) a b = Some 1%Z) /\
@@ -118,19 +113,18 @@ Proof. exact compare3_modes. Qed.
 Print Assumptions C15_compare3_modes.
 
 (* sort/2: sorted(set(elements), key=StructSort) for every iteration order of the set *)
-Theorem C15_sort_digits : forall fr xs s,
-  Forall (fun x => dom_digits x = true) xs -> is_py_set xs s ->
+Theorem C15_sort : forall fr xs s,
+  Forall (fun x => dom x = true) xs -> is_py_set xs s ->
   _builtin_sort_sorted fr s = plg_sort xs.
-Proof. exact sort_digits. Qed.
-Print Assumptions C15_sort_digits.
+Proof. exact sort_dom. Qed.
+Print Assumptions C15_sort.
 
-(* non-vacuity *)
-Example C15_ex_dom : dom_digits (TFun [102] [TInt 3; TFun [97] []; TStr [34; 120; 34]])%N = true.
+(* non-vacuity: multi-digit and negative integers, floats, strings *)
+Example C15_ex_dom :
+  dom (TFun [102] [TInt (-30); TFlt 5; TFun [97] []; TStr [34; 120; 34]; TInt 9007199254740991])%N = true.
 Proof. reflexivity. Qed.
-Example C15_ex_cmp : forall fr,
-  struct_cmp fr (TFun [102] [TInt 3; TFun [97] []])%N (TFun [102] [TInt 7; TFun [97] []])%N = (-1)%Z.
+Example C15_ex_cmp : forall fr, struct_cmp fr (TInt 10) (TInt 9) = 1%Z.
 Proof. intros fr. vm_compute. reflexivity. Qed.
 Example C15_ex_sort : forall fr,
-  _builtin_sort_sorted fr [TFun [98] []; TInt 2; TFun [97] [TInt 1]; TInt 1]%N
-  = [TInt 1; TInt 2; TFun [98] []; TFun [97] [TInt 1]]%N.
+  _builtin_sort_sorted fr [TInt 10; TInt 9; TInt 2; TInt 1] = [TInt 1; TInt 2; TInt 9; TInt 10].
 Proof. intros fr. vm_compute. reflexivity. Qed.
